@@ -362,12 +362,12 @@ def explore(res, depth):
         except ValueError:
             pass
     R.restore()
-    ulen = 3 if depth <= 5 else 4
-    if ulen == 4:
-        # thorough: every history of length 4 whose operations are registrations / prints (queries last only)
-        pass
-    groups = [[op] for op in OPS]
-    for o in core.pmap(unmerged, [(g, 3) for g in groups]):
+    ulen = 3 if depth <= 5 else 4          # quick: all histories of length 3; thorough: of length 4
+    if ulen == 3:
+        jobs = [([op], 3) for op in OPS]
+    else:
+        jobs = [([op], 3) for op in OPS] + [([op], 4) for op in OPS]
+    for o in core.pmap(unmerged, jobs):
         res.add([o['part']] if 'part' in o else [o])
     pairs = [(k, seen[k], h2) for k, h2 in second.items()]
     groups = [pairs[i::core.NPROC * 2] for i in range(core.NPROC * 2)]
@@ -392,7 +392,7 @@ def run(tier, seed):
                 'reference model; non-trivial = transitions whose observation is a tag or True' % (depth, len(OPS)),
         'depth': depth, 'new_states_per_level': levels, 'operations': len(OPS),
         'merged_states_validated_differentially': merged,
-        'unmerged_histories_of_length_3': a.c['unmerged_histories'],
+        'unmerged_histories (length 3; thorough also length 4)': a.c['unmerged_histories'],
         'relational_answers': a.c['relational_answers'],
         'samples': [{'history': [list(o) for o in h]} for h in (hs[len(hs) // 3], hs[-1], hs[len(hs) // 2])],
     }
